@@ -102,6 +102,26 @@ def gen_world(rng, profile):
         host["olists"] = [{"name": "ol0", "cls": r.choice(leafs), "n": r.randint(1, 2), "rand": r.random() < 0.75}]
         hp = rel_scalars(scn, "M" if host is classes["M"] else root)
         host["blocks"].append({"name": "zz0", "stmts": g.pstmts([x for x in hp if "ol0" in x[0]] + hp[:2], 1, 2)})
+        if r.random() < 0.6:
+            # foreach over the list of objects: element fields through the iterator and/or by index
+            ol = host["olists"][0]
+            ef = [f for f in W.members(scn, ol["cls"]) if f[1] == "scalar" and not f[2].get("enums")]
+            use_it = r.random() < 0.6
+            use_idx = (not use_it) or r.random() < 0.5
+            body = []
+            for _ in range(r.randint(1, 2)):
+                f = r.choice(ef)
+                lhs = {"k": "itfld", "name": f[0]}
+                d = r.random()
+                if d < 0.4:
+                    rhs = I(r.randint(0, 6))
+                elif d < 0.7 and use_idx:
+                    rhs = B("add", {"k": "idx"}, I(r.randint(0, 2)))
+                else:
+                    rhs = {"k": "fld", "path": list(r.choice(hp[:3])[0])}
+                body.append({"k": "expr", "e": B(r.choice(["lt", "le", "ne", "ge", "eq"]), lhs, rhs)})
+            host["blocks"].append({"name": "zz1", "stmts": [{"k": "foreach_o", "list": ["ol0"], "n": ol["n"], "it": use_it,
+                                                              "idx": use_idx, "body": body}]})
     # pre_randomize of some classes assigns a value to one of the class's non-random fields
     for cn, cd in classes.items():
         nr = [f for f in cd["fields"] if not f["rand"] and not f.get("enums")]
